@@ -289,7 +289,12 @@ def install_dft(st, N):
 
     def pyfftw_call(I, fr, x, out, direction='forward', halfcomplex=False, axes=None, normalise_idft=False, **kw):
         """documented contract of odl.trafos.backends.pyfftw_bindings.pyfftw_call: forward = (r)fftn, backward = N * i(r)fftn unless normalise_idft;
-        the result is written to out, the plan returned"""
+        the result is written to out, the plan returned.  A plan supplied through `fftw_plan` is EXECUTED AS IT WAS PLANNED: its direction and real / complex
+        kind override the `direction` / `halfcomplex` arguments of this call (the bindings do not compare them)."""
+        plan = kw.get('fftw_plan')
+        if isinstance(plan, tuple) and plan and plan[0] == 'plan':
+            direction, halfcomplex = plan[1], plan[2]
+        made = ('plan', direction, halfcomplex)
         if direction == 'forward':
             res = rfftn(I, fr, x) if halfcomplex else F(x, N)
         else:
@@ -299,7 +304,7 @@ def install_dft(st, N):
             elif not normalise_idft and halfcomplex:
                 res = res.scaled(N)
         out.kind, out.arg, out.scale = res.kind, res.arg, res.scale
-        return 'plan'
+        return made
     st.ext_cuts = {'numpy.fft.fftn': fftn, 'numpy.fft.ifftn': ifftn_, 'numpy.fft.rfftn': rfftn, 'numpy.fft.irfftn': irfftn}
     st.np_overrides = {'prod': prod, 'take': take, 'conj': lambda I, fr, x, **k: conj(x), 'conjugate': lambda I, fr, x, **k: conj(x)}
     st.cuts[FO + 'pyfftw_call'] = pyfftw_call
@@ -320,10 +325,26 @@ def unit_dft(sign, halfcomplex):
             inv_sign = '+' if sign == '-' else '-'
             fwd = mk_dft(I, st, fr, False, sign, halfcomplex, N, (0, 1))
             inv = mk_dft(I, st, fr, True, inv_sign, halfcomplex, N, (0, 1))
+            class _El(object):
+                def __init__(self, t):
+                    self.t = t
+
+                def pv_getattr(self, I_, fr_, name):
+                    if name == 'asarray':
+                        return ip.Builtin('asarray', lambda I2, fr2, a, kw: self.t)
+                    raise Unsupported('element.%s' % name)
+
             class _Dom(object):
+                n = 0
+
                 def pv_getattr(self, I_, fr_, name):
                     if name == 'shape':
                         return (S(z3.Int('n0')), S(z3.Int('n1')))
+                    if name == 'element':
+                        def el(I2, fr2, a, kw):
+                            _Dom.n += 1
+                            return _El(T('junk', 'planning_buffer%d' % _Dom.n))
+                        return ip.Builtin('element', el)
                     raise Unsupported('domain.%s' % name)
             dom = _Dom()
             for o in (fwd, inv):
@@ -337,6 +358,17 @@ def unit_dft(sign, halfcomplex):
                 out['fwd_fftw'] = I.call(I._getattr(fwd, '_call_pyfftw', fr), [x, buf], {}, fr)
                 buf2 = T('junk', 'out_buffer2')
                 out['inv_fftw'] = I.call(I._getattr(inv, '_call_pyfftw', fr), [out['fwd_fftw'], buf2], {}, fr)
+                # the two-step use: prepare the plan with init_fftw_plan(), then evaluate with it (twice: the plan of the first call is reused by the second)
+                fwd2 = mk_dft(I, st, fr, False, sign, halfcomplex, N, (0, 1))
+                inv2 = mk_dft(I, st, fr, True, inv_sign, halfcomplex, N, (0, 1))
+                for o in (fwd2, inv2):
+                    o.fields['_Operator__domain'] = dom
+                    o.fields['_Operator__range'] = dom
+                    o.fields['_DiscreteFourierTransformBase__impl'] = 'pyfftw'
+                    I.call(I._getattr(o, 'init_fftw_plan', fr), [], {}, fr)
+                out['fwd_planned'] = I.call(I._getattr(fwd2, '_call_pyfftw', fr), [x, T('junk', 'out_buffer3')], {}, fr)
+                out['fwd_planned2'] = I.call(I._getattr(fwd2, '_call_pyfftw', fr), [x, T('junk', 'out_buffer4')], {}, fr)
+                out['inv_planned'] = I.call(I._getattr(inv2, '_call_pyfftw', fr), [out['fwd_planned'], T('junk', 'out_buffer5')], {}, fr)
             except ip.PyRaise as e:
                 return ('raise', e.exc)
             out['x'], out['N'] = x, N
@@ -357,8 +389,11 @@ def unit_dft(sign, halfcomplex):
             ctx.prove(st, 'numpy back-end: inverse(forward(x)) == x', teq(r['inv_np'], x), dict(info, got=repr(r['inv_np'])))
             ctx.prove(st, 'pyfftw back-end: forward transform == the numpy back-end', teq(r['fwd_fftw'], r['fwd_np']), dict(info, got=repr(r['fwd_fftw'])))
             ctx.prove(st, 'pyfftw back-end: inverse(forward(x)) == x', teq(r['inv_fftw'], x), dict(info, got=repr(r['inv_fftw'])))
+            ctx.prove(st, 'pyfftw back-end with a plan prepared by init_fftw_plan(): forward transform == the numpy back-end', teq(r['fwd_planned'], r['fwd_np']), dict(info, got=repr(r['fwd_planned'])))
+            ctx.prove(st, 'pyfftw back-end, second call reusing the stored plan: same result', teq(r['fwd_planned2'], r['fwd_np']), dict(info, got=repr(r['fwd_planned2'])))
+            ctx.prove(st, 'pyfftw back-end with prepared plans: inverse(forward(x)) == x', teq(r['inv_planned'], x), dict(info, got=repr(r['inv_planned'])))
     return Unit('dft/sign=%s/halfcomplex=%s' % (sign, halfcomplex), run, funcs=[FO + 'DiscreteFourierTransform._call_numpy', FO + 'DiscreteFourierTransformInverse._call_numpy',
-                                                                           FO + 'DiscreteFourierTransform._call_pyfftw', FO + 'DiscreteFourierTransformInverse._call_pyfftw'],
+                                                                           FO + 'DiscreteFourierTransform._call_pyfftw', FO + 'DiscreteFourierTransformInverse._call_pyfftw', FO + 'DiscreteFourierTransformBase.init_fftw_plan'],
                 config={'sign': sign, 'halfcomplex': halfcomplex})
 
 
